@@ -88,4 +88,11 @@ def flatGroups : Pat → Bool → Bool
   | .gclose :: ts, inG => inG && flatGroups ts false
   | _ :: ts, inG => flatGroups ts inG
 
+/-- number of group boundaries a pattern records (each capture group contributes two) -/
+def nmarks : Pat → Nat
+  | [] => 0
+  | .gopen :: ts => nmarks ts + 1
+  | .gclose :: ts => nmarks ts + 1
+  | _ :: ts => nmarks ts
+
 end Moclo
